@@ -731,7 +731,13 @@ fn one_run(acc: &mut Acc, base_seed: u64, i: u64, det_n: u64) {
 
 fn minimise(h0: &History, sig: &str) -> (History, Value) {
     let mut probes = 0u64;
+    // shrinking is best effort within a time budget (a failure that needs a very long line
+    // would otherwise be probed once per character, each probe walking the whole text)
+    let deadline = std::time::Instant::now() + std::time::Duration::from_secs(20);
     let fails = |h: &History, probes: &mut u64| {
+        if std::time::Instant::now() > deadline {
+            return false;
+        }
         *probes += 1;
         execute(h).verdict.map(|v| v.0 == sig).unwrap_or(false)
     };
@@ -743,8 +749,19 @@ fn minimise(h0: &History, sig: &str) -> (History, Value) {
         2000,
     );
     h.ops = ops;
-    // shrink the text character by character
+    // shrink the text: by chunks first (delta debugging over its characters), then character by
+    // character
+    {
+        let chars: Vec<char> = h.text.chars().collect();
+        if chars.len() > 64 {
+            let kept = simcore::ddmin::ddmin(&chars, |cs| fails(&History { text: cs.iter().collect(), ops: h.ops.clone() }, &mut probes), 600);
+            h.text = kept.iter().collect();
+        }
+    }
     loop {
+        if h.text.chars().count() > 400 {
+            break;
+        }
         let chars: Vec<char> = h.text.chars().collect();
         let mut progressed = false;
         for i in 0..chars.len() {
